@@ -97,6 +97,10 @@ def cases(tier):
         yield {"kind": "valid-batch", "items": batch}
     for prob, d in shipped_problems():
         yield {"kind": "shipped", "problem": prob, "domain": d}
+    # long hyphenated names in wide sections; the first name's length sweeps the column of every later token
+    from ..gens import wide
+    for k in wide.SHIFTS:
+        yield {"kind": "wide", "shift": k}
 
 
 def text_reading(text):
@@ -170,6 +174,16 @@ def check_case(case):
             earlier = (P, D, text, guard(observe_problem, P)) if len(r.fails) == n_before else None
             if len(r.fails) >= 4:
                 break
+    elif case["kind"] == "wide":
+        from ..gens import wide
+        D = guard(parse_domain, wide.DOMAIN)
+        P = guard(parse_problem, wide.problem(case["shift"]), D) if not isinstance(D, Raised) else D
+        r.count("states")
+        r.nontrivial = True
+        if isinstance(P, Raised):
+            r.fail("unreadable-problem", f"wide problem (shift {case['shift']}) does not parse: {P}", "parsed", str(P), tags=["wide"])
+            return r
+        roundtrip(r, P, D, f"wide problem, first object {wide.objects(case['shift'])[0]}", ["wide"])
     else:
         D = guard(lambda: parse_domain(open(os.path.join(REPO, case["domain"]), encoding="utf-8").read()))
         if isinstance(D, Raised):
